@@ -19,7 +19,9 @@ func IsTimeout(err error) bool {
 	if t {
 		return t
 	}
-	if e, ok := err.(net.Error); ok {
+	// the timeout may have been wrapped on its way here (%w, http.Transport)
+	var e net.Error
+	if errors.As(err, &e) {
 		return e.Timeout()
 	}
 	return false
